@@ -1,5 +1,6 @@
 mod cli;
 mod db;
+mod exh;
 mod fsws;
 mod gen;
 mod hist;
